@@ -274,7 +274,7 @@ def run(rep, tier):
     rep.rule('R06.2', 'set tests agree with the C sibling: every STATES_HAS_AND / STATES_HAS_ANY test of the Promela step has the operands and the polarity of the corresponding bit_has_and / bit_has_any test of the emitted C step function, and vice versa')
     rep.rule('R06.3', 'phase order and loop direction: writeFSM emits dequeue, select, remember history, establish entry set, exit, take, enter in this order; the exit loop counts down from USCXML_NUMBER_STATES, the take and enter loops count up from 0')
     rep.rule('R06.4', 'set updates agree with the C sibling: the multiset of (operation, destination, source) over OR / AND / AND_NOT / COPY / CLEAR is the same in both emitted step functions (accepted differences are listed with reasons)')
-    rep.rule('R06.5', 'set-valued completion: the emitted loop that adds the ancestors of a compound\'s deep completion members does not leave at the first member (same clause as C04 R04.9 for the C sibling)')
+    rep.rule('R06.5', 'closure loops visit every member: each emitted loop of the entry-set phase that adds the ancestors of the members of a set (deep completion, targets of initial and history default transitions) neither breaks after the first member nor leaves at the first non-member (same clause as C04 R04.9 for the C sibling)')
     rep.rule('R06.6', 'static event-descriptor resolution: the prefix trie registers every event name and a prefix lookup returns every name below the prefix (rules shared with C12 R12.5 / R12.6)')
     rep.rule('R06.7', 'literal numbering is injective: the loop that makes a macro name unique tests the same string that is then inserted into the name set and handed out (no case folding or other rewrite between the test and the insertion)')
     rep.assume('equality of the spin model\'s executions with the interpreter\'s is not decided; executable content, event/string numbering, nested machines and timers are not analysed')
@@ -361,21 +361,39 @@ def run(rep, tier):
         rep.check((direction == 'down' and down) or (direction == 'up' and up), 'R06.3', '%s|loop direction' % w, 'src/uscxml/transform/ChartToPromela.cpp:%s' % first_init[1],
                   'the loop starts at `%s` and steps `i = i %s 1` (expected: counting %s)' % (first_init[0], steps[0] if steps else '?', direction))
 
-    # ---- R06.5
+    # ---- R06.5 every closure loop that ORs the ancestors of the members of a set visits every member
     f, t, ls = per_writer['writeFSMEstablishEntrySet']
     hits = 0
     for idx, (line, src) in enumerate(ls):
-        if re.search(r'STATES_OR\(\s*ctx\.entry_set\s*,\s*states\[j\]\.ancestors\s*\)', line):
-            hits += 1
-            brk = None
-            for l2, s2 in ls[idx + 1: idx + 8]:
-                if re.match(r'\s*}', l2):
+        m_ = re.search(r'STATES_OR\(\s*ctx\.entry_set\s*,\s*states\[(\w+)\]\.ancestors\s*\)', line)
+        if not m_:
+            continue
+        hits += 1
+        # (a) no break inside the member's own branch
+        brk = None
+        for l2, s2 in ls[idx + 1: idx + 8]:
+            if re.match(r'\s*}', l2):
+                break
+            if re.search(r'\bbreak\s*;', l2):
+                brk = s2
+        # (b) the else branch of the membership test that guards the OR: up to the `fi` that closes that `if`
+        depth_if = 0
+        else_break = None
+        for l2, s2 in ls[idx + 1:]:
+            st_ = l2.strip()
+            if re.match(r'^if\b', st_):
+                depth_if += 1
+            elif re.match(r'^fi\b', st_):
+                if depth_if == 0:
                     break
-                if re.search(r'\bbreak\s*;', l2):
-                    brk = s2
-            rep.check(brk is None, 'R06.5', 'writeFSMEstablishEntrySet|deep completion', 'src/uscxml/transform/ChartToPromela.cpp:%s' % (brk or src),
-                      'after adding the ancestors of a completion member the emitted loop %s' % ('goes on to the next member' if brk is None else 'BREAKS: only the first state of a multi-state initial attribute gets its ancestors'))
-    rep.minimum('R06.5', hits, 1, 'deep-completion ancestor insertions in the Promela step')
+                depth_if -= 1
+            elif depth_if == 0 and re.match(r'^::\s*else\s*->\s*break', st_):
+                else_break = s2
+        what = 'members of the set indexed by %s' % m_.group(1)
+        rep.check(brk is None and else_break is None, 'R06.5', 'writeFSMEstablishEntrySet|ancestor closure at line %s' % src, 'src/uscxml/transform/ChartToPromela.cpp:%s' % (brk or else_break or src),
+                  'the emitted loop that adds the ancestors of the %s %s' % (what, 'visits every member' if brk is None and else_break is None else
+                  ('BREAKS after the first member' if brk else 'LEAVES THE LOOP at the first non-member (`:: else -> break`): members further on never get their ancestors (an <initial> transition to a grandchild enters the grandchild without its parent)')))
+    rep.minimum('R06.5', hits, 2, 'ancestor closures in the Promela entry-set phase')
 
     # ---- R06.6
     from . import C12
